@@ -63,6 +63,8 @@ def writeRM (s : Machine) (w : Nat) (o : AxOperand) (v : BitVec 64) : Out Machin
 inductive Op2 where
   | add | adc | sub | and | xor | mov | movzx | movsx
   | cmov (cond : Bool)     -- condition already evaluated
+  | shl | shr              -- count in the (8-bit) source
+  | shl1 | shr1            -- the D0/D1 forms: count 1 whatever the source says
 deriving DecidableEq, Repr, Inhabited
 
 /-- one-operand operations -/
@@ -103,6 +105,25 @@ def opNeg {w : Nat} (v : BitVec w) : BitVec w × BitVec 64 :=
   let r := ~~~v + 1
   (r, flagIf (v != 0) FLAG_CF ||| flagIf (r == BitVec.twoPow w (w - 1)) FLAG_OF)
 
+/-- `shl_bits`: masked count (5 bits, 6 for 64-bit operands); count 0 leaves everything alone
+    (`FLAGS_UNAFFECTED`); CF = last bit shifted out (bit `w - count`), OF only for count 1. -/
+def opShl {w : Nat} (d : BitVec w) (s : BitVec 8) : BitVec w × BitVec 64 :=
+  let count := (s &&& (if w = 64 then 0x3f else 0x1f)).toNat
+  if count = 0 then (d, FLAGS_UNAFFECTED) else
+  let r : BitVec w := if count < w then d <<< count else 0
+  let cf := decide (count ≤ w) && d.getLsbD (w - count)
+  let of := decide (count = 1) && (r.msb != cf)
+  (r, flagIf cf FLAG_CF ||| flagIf of FLAG_OF)
+
+/-- `shr_bits`: CF = bit `count - 1`, OF (count 1) = the operand's most significant bit. -/
+def opShr {w : Nat} (d : BitVec w) (s : BitVec 8) : BitVec w × BitVec 64 :=
+  let count := (s &&& (if w = 64 then 0x3f else 0x1f)).toNat
+  if count = 0 then (d, FLAGS_UNAFFECTED) else
+  let r : BitVec w := if count < w then d >>> count else 0
+  let cf := decide (count ≤ w) && d.getLsbD (count - 1)
+  let of := decide (count = 1) && d.msb
+  (r, flagIf cf FLAG_CF ||| flagIf of FLAG_OF)
+
 /-- apply a two-operand operation at destination width `w` with a source of width `sw` -/
 def applyOp2 (op : Op2) (cfIn : Bool) (w sw : Nat) (d s : BitVec 64) : BitVec 64 × BitVec 64 :=
   let dw : BitVec w := d.setWidth w
@@ -119,6 +140,10 @@ def applyOp2 (op : Op2) (cfIn : Bool) (w sw : Nat) (d s : BitVec 64) : BitVec 64
     | .movzx => (sz, 0)
     | .movsx => (ssw.signExtend w, 0)
     | .cmov c => (if c then sz else dw, 0)
+    | .shl => opShl dw (s.setWidth 8)
+    | .shr => opShr dw (s.setWidth 8)
+    | .shl1 => opShl dw 1
+    | .shr1 => opShr dw 1
   (r.setWidth 64, f)
 
 def applyOp1 (op : Op1) (w : Nat) (v : BitVec 64) : BitVec 64 × BitVec 64 :=
@@ -267,25 +292,32 @@ def execTest (s : Machine) (i : Instr) (w : Nat) (immForm : Bool) : Out Machine 
 
 /-! ### trace (src/helpers/trace.rs add_trace) -/
 
-/-- `add_trace(i, target, variant)`; RIP already holds `next_ip`.  `RIP - len` underflow and the
-    `i16` level arithmetic are panic sites (overflow checks). -/
+/-- saturating `i16` arithmetic on the nesting level -/
+def satLevel (l : Int) : Int := if l < -32768 then -32768 else if 32767 < l then 32767 else l
+
+/-- the level the next entry gets, from the last entry -/
+def nextLevel (last : TraceEntry) : Int :=
+  match last.variant with
+  | .call => satLevel (last.level + 1)
+  | .ret => satLevel (last.level - 1)
+  | .jump => last.level
+
+/-- the list part of `add_trace`: a repeated jump bumps the count of the last entry, anything else
+    appends an entry at the level that follows from the last one. -/
+def traceAdd (tr : List TraceEntry) (ip target : Nat) (v : TraceVariant) : List TraceEntry :=
+  match tr.getLast? with
+  | none => tr ++ [{ instrIp := ip, target := target, variant := v, level := 0, count := 1 }]
+  | some last =>
+    if last.variant = .jump ∧ last.instrIp = ip ∧ last.target = target ∧ v = .jump then
+      tr.dropLast ++ [{ last with count := last.count + 1 }]
+    else
+      tr ++ [{ instrIp := ip, target := target, variant := v, level := nextLevel last, count := 1 }]
+
+/-- `add_trace(i, target, variant)`; RIP already holds `next_ip`.  `RIP - len` is a checked
+    subtraction (panic site). -/
 def addTrace (s : Machine) (i : Instr) (target : BitVec 64) (v : TraceVariant) : Out Machine :=
   if s.regs.rip.toNat < i.len then .panic else
-  let ip := s.regs.rip.toNat - i.len
-  match s.trace.getLast? with
-  | none => .ok { s with trace := s.trace ++ [{ instrIp := ip, target := target.toNat, variant := v, level := 0, count := 1 }] }
-  | some last =>
-    -- `saturating_add` / `saturating_sub` on the `i16` level
-    let push (lvl : Int) : Out Machine :=
-      let lvl := if lvl < -32768 then -32768 else if 32767 < lvl then 32767 else lvl
-      .ok { s with trace := s.trace ++ [{ instrIp := ip, target := target.toNat, variant := v, level := lvl, count := 1 }] }
-    match last.variant with
-    | .call => push (last.level + 1)
-    | .ret => push (last.level - 1)
-    | .jump =>
-      if last.instrIp = ip ∧ last.target = target.toNat ∧ v = .jump then
-        .ok { s with trace := s.trace.dropLast ++ [{ last with count := last.count + 1 }] }
-      else push last.level
+  .ok { s with trace := traceAdd s.trace (s.regs.rip.toNat - i.len) target.toNat v }
 
 def setRip (s : Machine) (v : BitVec 64) : Machine := { s with regs := { s.regs with rip := v } }
 
@@ -394,6 +426,8 @@ inductive Handler where
   | pushR (n : Nat) | pushImm (n : Nat) | pushRm16 | pushqImm8 | pushqImm32
   | popR (n : Nat)
   | nop | cld | cpuid | cdq | cdqe | cqo | cwd
+  | mul (w : Nat) | imul1 (w : Nat) | imul2 (w : Nat) | imul3 (w : Nat)
+  | div (w : Nat) | idiv (w : Nat)
   | hookOnly                           -- SYSCALL / INT n / INT1 / INT3: ok iff a hook is registered
   | xorps | movupsLoad | movupsStore | movdToXmm | movdFromXmm
   | unimplemented                      -- `opcode_unimplemented!` / `fatal_error!` bodies
@@ -508,6 +542,27 @@ def table : List (String × Handler) :=
     ("Endbr64", .nop), ("Cld", .cld), ("Cpuid", .cpuid),
     ("Cdq", .cdq), ("Cdqe", .cdqe), ("Cqo", .cqo), ("Cwd", .cwd),
     ("Syscall", .hookOnly), ("Int_imm8", .hookOnly), ("Int1", .hookOnly), ("Int3", .hookOnly),
+    -- shifts
+    ("Shl_rm8_imm8", .rmImm 8 8 .shl SZP CO), ("Shl_rm16_imm8", .rmImm 16 8 .shl SZP CO),
+    ("Shl_rm32_imm8", .rmImm 32 8 .shl SZP CO), ("Shl_rm64_imm8", .rmImm 64 8 .shl SZP CO),
+    ("Shl_rm8_1", .rmImm 8 8 .shl1 SZP CO), ("Shl_rm16_1", .rmImm 16 8 .shl1 SZP CO),
+    ("Shl_rm32_1", .rmImm 32 8 .shl1 SZP CO), ("Shl_rm64_1", .rmImm 64 8 .shl1 SZP CO),
+    ("Shl_rm8_CL", .rmR 8 8 .shl SZP CO), ("Shl_rm16_CL", .rmR 16 8 .shl SZP CO),
+    ("Shl_rm32_CL", .rmR 32 8 .shl SZP CO), ("Shl_rm64_CL", .rmR 64 8 .shl SZP CO),
+    ("Shr_rm8_imm8", .rmImm 8 8 .shr SZP CO), ("Shr_rm16_imm8", .rmImm 16 8 .shr SZP CO),
+    ("Shr_rm32_imm8", .rmImm 32 8 .shr SZP CO), ("Shr_rm64_imm8", .rmImm 64 8 .shr SZP CO),
+    ("Shr_rm8_1", .rmImm 8 8 .shr1 SZP CO), ("Shr_rm16_1", .rmImm 16 8 .shr1 SZP CO),
+    ("Shr_rm32_1", .rmImm 32 8 .shr1 SZP CO), ("Shr_rm64_1", .rmImm 64 8 .shr1 SZP CO),
+    ("Shr_rm8_CL", .rmR 8 8 .shr SZP CO), ("Shr_rm16_CL", .rmR 16 8 .shr SZP CO),
+    ("Shr_rm32_CL", .rmR 32 8 .shr SZP CO), ("Shr_rm64_CL", .rmR 64 8 .shr SZP CO),
+    -- multiply / divide
+    ("Mul_rm8", .mul 8), ("Mul_rm16", .mul 16), ("Mul_rm32", .mul 32), ("Mul_rm64", .mul 64),
+    ("Imul_rm8", .imul1 8), ("Imul_rm16", .imul1 16), ("Imul_rm32", .imul1 32), ("Imul_rm64", .imul1 64),
+    ("Imul_r16_rm16", .imul2 16), ("Imul_r32_rm32", .imul2 32), ("Imul_r64_rm64", .imul2 64),
+    ("Imul_r16_rm16_imm16", .imul3 16), ("Imul_r32_rm32_imm32", .imul3 32), ("Imul_r64_rm64_imm32", .imul3 64),
+    ("Imul_r16_rm16_imm8", .imul3 16), ("Imul_r32_rm32_imm8", .imul3 32), ("Imul_r64_rm64_imm8", .imul3 64),
+    ("Div_rm8", .div 8), ("Div_rm16", .div 16), ("Div_rm32", .div 32), ("Div_rm64", .div 64),
+    ("Idiv_rm8", .idiv 8), ("Idiv_rm16", .idiv 16), ("Idiv_rm32", .idiv 32), ("Idiv_rm64", .idiv 64),
     -- SSE
     ("Xorps_xmm_xmmm128", .xorps), ("Movups_xmm_xmmm128", .movupsLoad), ("Movups_xmmm128_xmm", .movupsStore),
     ("Movd_xmm_rm32", .movdToXmm), ("Movd_rm32_xmm", .movdFromXmm),
@@ -537,6 +592,170 @@ def writeXmm (s : Machine) (r : Reg) (v : BitVec 128) : Out Machine :=
   | .ok rs => .ok { s with regs := rs }
   | .err => .err
   | .panic => .panic
+
+/-! ### multiply and divide -/
+
+/-- accumulator views: AL/AX/EAX/RAX and the high half AH/DX/EDX/RDX -/
+def accLo (w : Nat) : Reg := match w with | 8 => .g8 RAX | 16 => .g16 RAX | 32 => .g32 RAX | _ => .g64 RAX
+def accHi (w : Nat) : Reg := match w with | 8 => .h8 0 | 16 => .g16 RDX | 32 => .g32 RDX | _ => .g64 RDX
+
+/-- MUL/IMUL flag update: `set_flags(ovf ? CF|OF : 0, ovf ? 0 : CF|OF, 0)` — a zero "result" -/
+def mulFlags (s : Machine) (fw : Nat) (ovf : Bool) : Out Machine :=
+  setFlagsW s fw (if ovf then CO else 0) (if ovf then 0 else CO) 0
+
+/-- read the single r/m operand of MUL/IMUL/DIV/IDIV -/
+def readOp0 (s : Machine) (i : Instr) (w : Nat) : Out (BitVec 64) :=
+  match instructionOperand i 0 with
+  | .err => .err
+  | .panic => .panic
+  | .ok o =>
+    match o with
+    | .immediate _ _ => .err
+    | _ => readRM s w o
+
+/-- write a `2w`-bit product: 8 bit → AX, otherwise low → A, high → D -/
+def writeProduct (s : Machine) (w : Nat) (p : Nat) : Out Machine :=
+  if w = 8 then writeReg s 16 (.g16 RAX) (BitVec.ofNat 64 (p % 2 ^ 16))
+  else
+    match writeReg s w (accLo w) (BitVec.ofNat 64 (p % 2 ^ w)) with
+    | .ok s1 => writeReg s1 w (accHi w) (BitVec.ofNat 64 (p / 2 ^ w % 2 ^ w))
+    | .err => .err
+    | .panic => .panic
+
+/-- MUL r/m: unsigned accumulator × operand; CF = OF = (upper half ≠ 0); flags through `set_flags_u8` -/
+def execMul (s : Machine) (i : Instr) (w : Nat) : Out Machine :=
+  match readOp0 s i w with
+  | .err => .err
+  | .panic => .panic
+  | .ok src =>
+    match readReg s w (accLo w) with
+    | .err => .err
+    | .panic => .panic
+    | .ok dst =>
+      let p := dst.toNat * src.toNat
+      match writeProduct s w p with
+      | .err => .err
+      | .panic => .panic
+      | .ok s1 => mulFlags s1 8 (p / 2 ^ w % 2 ^ w != 0)
+
+/-- signed value of the low `w` bits -/
+def sval (w : Nat) (v : BitVec 64) : Int := (v.setWidth w).toInt
+
+/-- two's complement of an integer in `n` bits, as a natural number -/
+def twos (n : Nat) (x : Int) : Nat := (x % (2 ^ n : Int)).toNat
+
+/-- does the signed product fit in `w` bits? (`result >> (w-1)` is neither 0 nor −1) -/
+def sfits (w : Nat) (x : Int) : Bool := decide (-(2 ^ (w - 1) : Int) ≤ x) && decide (x < (2 ^ (w - 1) : Int))
+
+/-- IMUL r/m (one operand): signed accumulator × operand into A (and D); flags at the operand width
+    (8-bit form: `set_flags_u8`) -/
+def execImul1 (s : Machine) (i : Instr) (w : Nat) : Out Machine :=
+  match readOp0 s i w with
+  | .err => .err
+  | .panic => .panic
+  | .ok src =>
+    match readReg s w (accLo w) with
+    | .err => .err
+    | .panic => .panic
+    | .ok dst =>
+      let p : Int := sval w dst * sval w src
+      match writeProduct s w (twos (2 * w) p) with
+      | .err => .err
+      | .panic => .panic
+      | .ok s1 => mulFlags s1 w (!sfits w p)
+
+/-- IMUL r, r/m: source first, then the destination, which must be a register -/
+def execImul2 (s : Machine) (i : Instr) (w : Nat) : Out Machine :=
+  match instructionOperands2 i with
+  | .err => .err
+  | .panic => .panic
+  | .ok (dest, src) =>
+    match src with
+    | .immediate _ _ => .err
+    | _ =>
+      match readRM s w src with
+      | .err => .err
+      | .panic => .panic
+      | .ok sv =>
+        match dest with
+        | .register dr =>
+          match readReg s w dr with
+          | .err => .err
+          | .panic => .panic
+          | .ok dv =>
+            let p : Int := sval w dv * sval w sv
+            match writeReg s w dr (BitVec.ofNat 64 (twos w p)) with
+            | .err => .err
+            | .panic => .panic
+            | .ok s1 => mulFlags s1 w (!sfits w p)
+        | _ => .err
+
+/-- IMUL r, r/m, imm: `overflowing_mul` at the operand width; flags through `set_flags_u8` -/
+def execImul3 (s : Machine) (i : Instr) (w : Nat) : Out Machine :=
+  match instructionOperands2 i with
+  | .err => .err
+  | .panic => .panic
+  | .ok (dest, src) =>
+    match instructionOperand i 2 with
+    | .err => .err
+    | .panic => .panic
+    | .ok imm =>
+      match src with
+      | .immediate _ _ => .err
+      | _ =>
+        match readRM s w src with
+        | .err => .err
+        | .panic => .panic
+        | .ok sv =>
+          match imm with
+          | .immediate data _ =>
+            let p : Int := sval w sv * sval w data
+            match dest.toReg with
+            | .err => .err
+            | .panic => .panic
+            | .ok dr =>
+              match writeReg s w dr (BitVec.ofNat 64 (twos w p)) with
+              | .err => .err
+              | .panic => .panic
+              | .ok s1 => mulFlags s1 8 (!sfits w p)
+          | _ => .err
+
+/-- the `2w`-bit dividend D:A (8 bit: AX) -/
+def dividend (s : Machine) (w : Nat) : Nat :=
+  if w = 8 then (s.regs.get RAX).toNat % 2 ^ 16
+  else (s.regs.get RAX).toNat % 2 ^ w + 2 ^ w * ((s.regs.get RDX).toNat % 2 ^ w)
+
+/-- write quotient and remainder: 8 bit → AL, AH; otherwise A, D -/
+def writeQuotRem (s : Machine) (w : Nat) (q r : Nat) : Out Machine :=
+  match writeReg s w (accLo w) (BitVec.ofNat 64 q) with
+  | .ok s1 => writeReg s1 w (accHi w) (BitVec.ofNat 64 r)
+  | .err => .err
+  | .panic => .panic
+
+/-- DIV r/m: zero divisor or a quotient that does not fit → error -/
+def execDiv (s : Machine) (i : Instr) (w : Nat) : Out Machine :=
+  match readOp0 s i w with
+  | .err => .err
+  | .panic => .panic
+  | .ok src =>
+    if src.toNat = 0 then .err else
+    let n := dividend s w
+    let q := n / src.toNat
+    if 2 ^ w ≤ q then .err else writeQuotRem s w q (n % src.toNat)
+
+/-- IDIV r/m: truncating signed division; zero divisor or quotient out of range → error.
+    The 64-bit form takes its divisor zero-extended (as the code does: known finding). -/
+def execIdiv (s : Machine) (i : Instr) (w : Nat) : Out Machine :=
+  match readOp0 s i w with
+  | .err => .err
+  | .panic => .panic
+  | .ok src =>
+    let d : Int := if w = 64 then (src.toNat : Int) else sval w src
+    if d = 0 then .err else
+    let n : Int := (BitVec.ofNat (2 * w) (dividend s w)).toInt
+    let q := Int.tdiv n d
+    let r := Int.tmod n d
+    if !sfits w q then .err else writeQuotRem s w (twos w q) (twos w r)
 
 /-- does any hook exist for this mnemonic?  (parameter of `exec`: the hook table lives outside) -/
 abbrev HasHooks := String → Bool
@@ -698,6 +917,12 @@ def exec (hasHooks : HasHooks) (i : Instr) (s : Machine) : ExecRes :=
       let ax := s.regs.get RAX &&& 0xFFFF#64
       let dx : BitVec 64 := if ax &&& 0x8000#64 == 0x8000#64 then 0xFFFF#64 else 0
       .ok { s with regs := s.regs.set RDX ((s.regs.get RDX &&& 0xFFFFFFFFFFFF0000#64) ||| dx) }
+    | .mul w => .ofOut (execMul s i w)
+    | .imul1 w => .ofOut (execImul1 s i w)
+    | .imul2 w => .ofOut (execImul2 s i w)
+    | .imul3 w => .ofOut (execImul3 s i w)
+    | .div w => .ofOut (execDiv s i w)
+    | .idiv w => .ofOut (execIdiv s i w)
     | .hookOnly => if hasHooks i.mnem then .ok s else .err
     | .xorps =>
       .ofOut (match instructionOperands2 i with
@@ -708,7 +933,15 @@ def exec (hasHooks : HasHooks) (i : Instr) (s : Machine) : ExecRes :=
           | .err => .err
           | .panic => .panic
           | .ok dr =>
-            match readXmmRM s src with
+            -- a memory operand must be 16-byte aligned
+            let sv : Out (BitVec 128) := match src with
+              | .memory m =>
+                match memAddr s m with
+                | .ok a => if a &&& 0xf#64 != 0 then .err else readMem128 s a
+                | .err => .err
+                | .panic => .panic
+              | _ => readXmmRM s src
+            match sv with
             | .err => .err
             | .panic => .panic
             | .ok sv =>
